@@ -17,7 +17,7 @@ func init() {
 			"D3 directories never reach the dispatch, non-regular files only when symlink reading is on and the mode is a symlink; D4 the directory-skip predicate consults each of the five skip rules on every path that answers 'do not skip', each rule's match leads to 'skip', the skip list is an exact-path lookup, and SkipDir is returned iff the predicate holds; " +
 			"D5 files matched by gitignore patterns never reach the dispatch, and the pattern stack stays balanced (every directory that returns nil/SkipDir pushed exactly one set, the pop removes exactly one under the same conditions); D6 every package of an Extract result is attributed to the extractor that produced it and appended to the inventory whenever the result is non-empty (also when Extract returned an error), Scan merges filesystem and standalone inventories; " +
 			"D7 the walker calls the callback before listing a directory, recurses into every successfully read entry, leaves the loop only on EOF / callback error / SkipDir, and never originates SkipDir itself; D8 whole-tree and explicit-path walks use the same callbacks, explicit directories get their parents' gitignore patterns. " +
-			"Added in round 3: the skip predicate, as a boolean function of its tests, equals the disjunction of the five configured skip rules (decision table); the decisions and early exits that keep the current file from an extractor are the audited ones; the size-limit rule of C10 is shared. NOT decided: correctness of glob/regex/gitignore matching, path-prefix stripping, set equality of inventories, FileRequired predicates (values).",
+			"Added in round 3: the skip predicate, as a boolean function of its tests, equals the disjunction of the five configured skip rules (decision table); the decisions and early exits that keep the current file from an extractor are the audited ones; the size-limit rule of C10 is shared. Added in round 7: D9 an extractor required by several detectors is enabled once — the seen-set EnableRequiredExtractors consults is extended on every path that appends. NOT decided: correctness of glob/regex/gitignore matching, path-prefix stripping, set equality of inventories, FileRequired predicates (values).",
 		Run: runC01,
 		Controls: []Mutant{
 			{Name: "negate-filerequired", File: "extractor/filesystem/filesystem.go", Old: "if ex.FileRequired(wc.fileAPI) {", New: "if !ex.FileRequired(wc.fileAPI) {", Rule: "D1-dispatch", Site: "handleFile"},
@@ -75,6 +75,8 @@ func runC01(p *Prog, r *Report) {
 	c01ParentPatternsReset(p, r, e, "D8-same")
 	r.Rule("D5-balanced", "gitignore push/pop balanced: patterns of skipped directories never unbalance the stack")
 	c08Balanced(p, r, e, "D5-balanced")
+	r.Rule("D9-enabled-once", "an extractor required by several detectors is enabled once")
+	seenSetIsKeptCurrent(p, r, "D9-enabled-once", p.FuncsIn("."), 1, "an extractor that is added to the configuration because a detector requires it is not recorded in the set the next requirement is checked against: a second detector requiring the same extractor adds it again, and every file it wants is extracted (and every package reported) once per detector")
 }
 
 func c01Dispatch(p *Prog, r *Report, e *engine) {
